@@ -176,7 +176,29 @@ class Ctx:
                  len(self.known_hits), len(self.violations), time.time() - self.t0))
         return rc
 
+    def pool(self):
+        """ONE pool of forked workers per check run, shared by every family.  Page faults are very expensive on this kind of
+        machine (a forked worker copy-on-write-faults ~9k pages before it runs at full speed: seconds per worker, and that was
+        paid by every worker of every per-family pool).  The parent's heap is frozen first so the workers' collector never
+        walks (and copies) it."""
+        if getattr(self, "_pool", None) is None:
+            import gc
+            import multiprocessing
+            from .core import import_repo
+            import_repo()
+            gc.collect()
+            gc.freeze()
+            self._pool = multiprocessing.get_context("fork").Pool(self.workers)
+        return self._pool
+
     def cleanup(self):
+        if getattr(self, "_pool", None) is not None:
+            try:
+                self._pool.terminate()
+                self._pool.join()
+            except Exception:
+                pass
+            self._pool = None
         shutil.rmtree(self.scratch, ignore_errors=True)
 
 
@@ -189,6 +211,14 @@ def main(pid, run, replay=None, level="model_checking"):
     ctx = Ctx(pid, args.tier, args.seed, level=level)
     rc = 2
     try:
+        # import the working tree ONCE in the parent: every worker pool is forked from here and inherits the modules
+        # (importing cloudsync costs seconds - pkg_resources - and used to be paid by every worker of every pool)
+        from .core import import_repo
+        import_repo()
+        try:
+            import cloudsync.tests.fixtures.mock_storage, cloudsync.sync.sqlite_storage, cloudsync.providers.filesystem  # noqa
+        except Exception:
+            pass
         if args.replay:
             with open(args.replay) as fh:
                 rep = json.load(fh)
